@@ -136,6 +136,7 @@ EXTRA4 = {
  "C12": " Also: in the parsing packages every element access x[i-k] has i-k >= 0 proved from the dominating conditions (one function tabled with the invariant it relies on).",
  "C13": " Also: rfc822.Split locates the end of the header by single-byte (line) searches only and returns a partition b[0:k], b[k:].",
  "C14": " Also: a mailbox deletion by the connector always clears the deleted subscription of that name.",
+ "C18": " Also: the file name placed into the SQLite file: URI is url.PathEscape'd (two users never share a database through percent-decoding).",
  "C19": " Also: plain blocking sends in the session package occur only on the response and event channels; every other send sits in a select with a receive (shutdown) case.",
  "C20": " Also: MessageHashesMap.Erase leaves its loop over the ids only by exhaustion.",
 }
